@@ -712,7 +712,54 @@ func stageTailClosed(c *Ctx, name string, fd *FuncDecl, f *FuncCFG, after token.
 // (GetHeaderHashes(storedHeaderCount - batch)) when the node starts. Whatever deletes pages of that key space on disk
 // (SeekGC over IXHeaderHashList) must therefore bound itself by the current header height, not only by the
 // traceability index it was given: with MaxTraceableBlocks below the page size the index passes the last complete page.
+// startupWalkProtected: the second thing HeaderHashes.init reads unconditionally are the block records of the page
+// that is not stored yet - it walks them from the current header down to the last stored page, or down to the
+// genesis block while no page is complete. Whoever deletes block records from the bottom up must therefore know
+// about pages: every call of dao.DeleteBlock in package core lies in a function that tests or computes with
+// headerBatchCount before the call (the collector aligns its target, the state jump keeps the genesis block while
+// there is no complete page); the top-down removal of the state reset is tabled - it is known finding 10.
+func startupWalkProtected(c *Ctx) {
+	tabled := map[string]string{"pkg/core.(*Blockchain).resetStateInternal": "removes blocks from the top down; what that does to an interrupted reset is known finding 10 (resume-path)"}
+	pk := c.P.Pkg("pkg/core")
+	if pk == nil {
+		return
+	}
+	n := 0
+	for _, fd := range c.P.AllFuncDecls() {
+		if fd.Pkg != pk || fd.Decl.Body == nil {
+			continue
+		}
+		f := c.P.NewFuncCFG(fd)
+		sites := f.CallSites("pkg/core/dao.(*Simple).DeleteBlock")
+		if len(sites) == 0 {
+			continue
+		}
+		n++
+		key := "startup-walk." + FuncKey(fd.Obj)
+		if why, ok := tabled[FuncKey(fd.Obj)]; ok {
+			c.OK(key, c.P.Pos(sites[0].call.Pos()), "tabled: "+why)
+			continue
+		}
+		aware := false
+		ast.Inspect(fd.Decl.Body, func(x ast.Node) bool {
+			if id, ok := x.(*ast.Ident); ok && id.Pos() < sites[0].call.Pos() {
+				if cst, ok := f.Info.ObjectOf(id).(*types.Const); ok && cst.Name() == "headerBatchCount" && cst.Pkg() == pk.Types {
+					aware = true
+				}
+			}
+			return true
+		})
+		if aware {
+			c.OK(key, c.P.Pos(sites[0].call.Pos()), "deletes block records in a function that takes the header-hash page size into account first")
+		} else {
+			c.Fail(key, c.P.Pos(sites[0].call.Pos()), fmt.Sprintf("%s deletes a block record without regard to header-hash pages: HeaderHashes.init restores the hashes of the page that is not stored yet by walking block records down to the last stored page - down to the genesis block while there is none - so on a chain shorter than one page the node cannot start any more once the record is gone", FuncKey(fd.Obj)))
+		}
+	}
+	c.Floor("functions deleting block records", n, 3)
+}
+
 func ruleGCKeepsStartupPage(c *Ctx) {
+	startupWalkProtected(c)
 	const symGC, symPfx, symHH = "pkg/core/storage.(Store).SeekGC", "pkg/core/storage.IXHeaderHashList", "pkg/core.(*HeaderHashes).HeaderHeight"
 	// the reader: init loads a page
 	if fd := c.P.Func("pkg/core", "HeaderHashes", "init"); fd != nil {
